@@ -5,6 +5,30 @@ here = os.path.dirname(os.path.dirname(os.path.abspath(__file__)))
 
 # id -> (technique, level text, level note, design ref)
 CHECKS = {
+    "C02": (
+        "Hypothesis-generated Parent DAGs rendered as permuted GFF3 files; reference-graph oracle over every (feature, level, featuretype, order_by) query",
+        "DAGs up to 12 features and depth 4 with multi-parent, shared and dangling Parent values and exotic ids are written in a generated line order; "
+        "children()/parents() of every stored feature at level None/1/2/3 with featuretype and order_by variants must equal the reference graph's "
+        "sets exactly (no repeats, never the feature itself), dangling parents raise FeatureNotFoundError, iter_by_parent_childs agrees.",
+        "Reference graph in gfv/props/c02.py reference(); ids unique.",
+        "DESIGN.md section 4 C02",
+    ),
+    "C03": (
+        "Hypothesis-generated gene/transcript/exon structures rendered as shuffled GTF files; extents and hierarchy from a reference computation",
+        "Derived transcript/gene features must exist exactly for ids owning an exon (unless disabled or explicitly present), span min start..max end of "
+        "the exons on their seqid/strand, and children/parents at levels 1 and 2 must equal the id-carrying lines; explicit gene/transcript lines stay "
+        "single and are never their own relative; all four disable_infer_* combinations and custom keys/subfeature.",
+        "Every line carries gene and transcript keys; one seqid/strand per gene; children(gene, 2) may include stored transcripts.",
+        "DESIGN.md section 4 C03",
+    ),
+    "C04": (
+        "Hypothesis-generated records x id_spec forms against a reference implementation of the documented id rules",
+        "Stored ids must equal ref_ids() (database-ids.rst) in input order for 16 id_spec forms incl. lists, dicts, ':field:' and callables, be unique, "
+        "db[id]/db[feature] must return exactly the stored line, generated absent keys (prefixes, case variants, SQL wildcards, padded) must raise "
+        "FeatureNotFoundError carrying the key, and a multi-valued selected id attribute must make create_db raise ValueError.",
+        "Reference ref_ids()/resolve_unique() in gfv/props/c04.py; explicit ids avoid the generated-name shapes.",
+        "DESIGN.md section 4 C04",
+    ),
     "C13": (
         "Hypothesis differential testing across the seven input forms + call-counting transforms + Counter oracle for inspect()",
         "The same generated annotation is supplied as path, gzip path, string, list of Features, one-shot generator, DataIterator and FeatureDB for "
